@@ -9,7 +9,8 @@ class Operation(ASTNode):
     def __init__(self, op, args, *args_, **kwargs):
         super().__init__(*args_, **kwargs)
 
-        self.op = ' '.join(op.lower().split())
+        # a name made of blanks only is kept as it is written
+        self.op = ' '.join(op.lower().split()) or op
         self.args = list(args)
         self.assert_arguments()
 
@@ -76,6 +77,15 @@ NOT_FUNCTION_NAMES = {
     'CASE', 'WHEN', 'THEN', 'ELSE', 'END', 'NULL', 'TRUE', 'FALSE', 'ASC', 'DESC', 'OVER', 'INTO', 'SET', 'FOR'
 }
 
+# keywords that are not read as the namespace of a function (`name`.f()) either
+NOT_NAMESPACE_NAMES = NOT_FUNCTION_NAMES | {
+    'ALTER', 'ANOMALY', 'CHARACTER', 'CHATBOT', 'COLLATE', 'CONVERT', 'DELETE', 'DESCRIBE',
+    'DETECTION', 'DROP', 'EVALUATE', 'EVERY', 'EXCEPT', 'EXISTS', 'EXPLAIN', 'FINETUNE', 'FULL',
+    'IF', 'INSERT', 'INTERSECT', 'JOB', 'KNOWLEDGE_BASE', 'LEFT', 'ML_ENGINE', 'PERSIST_ONLY',
+    'PRIMARY_KEY', 'PROJECT', 'READ', 'RIGHT', 'SEARCH_PATH', 'SHOW', 'SKILL', 'TRIGGER', 'UPDATE',
+    'USE', 'VALUES', 'WINDOW', 'WRITE'
+}
+
 
 class Function(Operation):
     def __init__(self, *args, distinct=False, from_arg=None, namespace=None, **kwargs):
@@ -101,8 +111,14 @@ class Function(Operation):
         return out_str
 
     @staticmethod
-    def name_to_string(name):
-        if not function_name_regex.fullmatch(name) or name.upper() in NOT_FUNCTION_NAMES:
+    def name_to_string(name, is_namespace=False):
+        from mindsdb_sql.parser.ast.select.identifier import NOT_NAME_KEYWORDS
+        if is_namespace:
+            not_names = NOT_NAMESPACE_NAMES
+        else:
+            # the keywords that are not read as a name are not read as a function name either
+            not_names = NOT_FUNCTION_NAMES | NOT_NAME_KEYWORDS
+        if not function_name_regex.fullmatch(name) or name.upper() in not_names:
             # can be read back only as a quoted name
             name = f'`{name}`'
         return name
@@ -112,8 +128,11 @@ class Function(Operation):
         distinct_str = 'DISTINCT ' if self.distinct else ''
 
         from_str = f' FROM {self.from_arg.to_string()}' if self.from_arg else ''
-        namespace = self.name_to_string(self.namespace) + '.' if self.namespace else ''
+        namespace = self.name_to_string(self.namespace, is_namespace=True) + '.' if self.namespace else ''
         name = self.name_to_string(self.op)
+        if name.upper() == 'DATABASE' and (args_str or distinct_str or from_str or namespace):
+            # the keyword is read as a function only in DATABASE()
+            name = f'`{name}`'
         return f'{namespace}{name}({distinct_str}{args_str}{from_str})'
 
 
